@@ -125,6 +125,16 @@ theorem absQ_of_nonneg {x : Rat} (h : 0 ≤ x) : absQ x = x := by
 theorem absQ_eq_zero {x : Rat} (h : absQ x = 0) : x = 0 := by
   unfold absQ at h; split at h <;> linarith
 
+theorem absQ_le_iff {x M : Rat} : absQ x ≤ M ↔ -M ≤ x ∧ x ≤ M := by
+  unfold absQ
+  split
+  · constructor
+    · intro h; constructor <;> linarith
+    · intro h; linarith [h.1]
+  · constructor
+    · intro h; constructor <;> linarith
+    · intro h; exact h.2
+
 theorem absQ_mul_of_nonneg {c : Rat} (hc : 0 ≤ c) (x : Rat) : absQ (c * x) = c * absQ x := by
   unfold absQ
   by_cases hx : x < 0
